@@ -568,7 +568,7 @@ impl MutationParser {
         content_pair: Pair<'_, Rule>,
     ) -> Result<(), Error> {
         let pair = content_pair.into_inner().next().unwrap();
-        let value = pair.as_str().replace("\\\"", "\"");
+        let value = super::decode_string_literal(pair.as_str());
         match field.field_type {
             FieldType::String => {
                 mutation_field.field_value = MutationFieldValue::Value(ParamValue::String(value));
